@@ -4,11 +4,14 @@
 cd "$(dirname "$0")/.."
 T=$(mktemp -d /tmp/selftest.XXXXXX); trap 'rm -rf "$T"' EXIT
 mkdir -p "$T/s" "$T/e"
+# one private build of the checker, so that edits made while the self-test runs cannot disturb it
+(cd checker && GOFLAGS=-mod=mod GOPROXY=off GOSUMDB=off GOTOOLCHAIN=local go build -o "$T/cvcheck" ./cmd/cvcheck) || { echo "checker does not build"; exit 2; }
+export CVBIN="$T/cvcheck"
 for d in seeded/*; do mkdir -p "$T/s/x"; ln -s "$(pwd)/$d" "$T/s/x/$(basename $d)"; done
 for d in selftest/equivalent/*; do mkdir -p "$T/e/x"; ln -s "$(pwd)/$d" "$T/e/x/$(basename $d)"; done
 tools/allmutants.sh "$T/s" > "$T/seeded.txt" 2>&1
 tools/allmutants.sh "$T/e" > "$T/equiv.txt" 2>&1
-miss=$(grep -c 'CAUGHT-BY:$' "$T/seeded.txt"); fa=$(grep -vc 'CAUGHT-BY:$' "$T/equiv.txt")
+miss=$(grep -vc 'CAUGHT-BY: C' "$T/seeded.txt"); fa=$(grep -vc 'CAUGHT-BY:$' "$T/equiv.txt")
 cat "$T/seeded.txt" "$T/equiv.txt"
 echo "SELFTEST seeded=$(wc -l < "$T/seeded.txt") missed=$miss equivalents=$(wc -l < "$T/equiv.txt") false_alarms=$fa"
 [ "$miss" = 0 ] && [ "$fa" = 0 ]
